@@ -13,7 +13,8 @@ def pretty(trace, verdict=None, full=False):
         mark = '>>' if verdict and verdict.get('verdict') == 'rejected' and i == verdict['at'] - 1 else '  '
         if ev in ('build', 'build_end', 'clean'):
             def fmt(es):
-                return ' '.join('/'.join(x['p']) + ('/' if x['t'] == 'dir' else '=%s,%s,%s' % (x['c'], x['sz'], x['mt']))
+                return ' '.join('/'.join(x['p']) + ('/' if x['t'] == 'dir' else '@' if x['t'] == 'pin'
+                                                    else '=%s,%s,%s' % (x['c'], x['sz'], x['mt']))
                                 for x in es if x['p'])
             extra = ''
             if ev == 'build':
